@@ -17,7 +17,7 @@ pub fn run(inp: &Input) -> Option<Obs> {
     let i = inp.ints.clone();
     let s = inp.strs.clone();
     let op = inp.op.clone();
-    if !["fmt", "parse", "roundtrip", "rfc_fmt", "rfc_parse", "display", "fromstr", "serde_ser", "serde_de", "serde_rt"].contains(&op.as_str()) { return None; }
+    if !["fmt", "parse", "roundtrip", "rfc_fmt", "rfc_parse", "display", "fromstr", "serde_ser", "serde_de", "serde_rt", "std_parse"].contains(&op.as_str()) { return None; }
     Some(guarded(move || match op.as_str() {
         // ints = [kind, value fields.. , (oracle data)], strs[0] = pattern
         "fmt" => match i[0] {
@@ -42,6 +42,12 @@ pub fn run(inp: &Input) -> Option<Obs> {
         },
         "rfc_fmt" => match mk_dt(i[0], i[1], i[2]) { Some(v) => Obs::Ok(vec![], vec![v.format_rfc3339(prec(i[3]))]), None => UNC },
         "rfc_parse" => obs_dt(DateTime::parse_rfc3339(&s[0])),
+        // str::parse::<T>() itself, for the integer types the library parses into (the model restates it as parse_unsigned / parse_signed)
+        "std_parse" => {
+            let r: Option<i128> = match i[0] { 0 => s[0].parse::<u8>().ok().map(|v| v as i128), 1 => s[0].parse::<u32>().ok().map(|v| v as i128),
+                                                2 => s[0].parse::<u64>().ok().map(|v| v as i128), _ => s[0].parse::<i32>().ok().map(|v| v as i128) };
+            match r { Some(v) => Obs::Ok(vec![v], vec![]), None => Obs::Err(2, vec![]) }
+        }
         "display" => match i[0] {
             0 => match mk_date(i[1]) { Some(v) => Obs::Ok(vec![], vec![v.to_string()]), None => UNC },
             1 => match mk_time(i[1], i[2]) { Some(v) => Obs::Ok(vec![], vec![v.to_string()]), None => UNC },
@@ -505,6 +511,17 @@ pub fn gen_c14(g: &mut Gen, tier: &str) {
         g.push(true, Input::with_strs("parse", vec![kind, now_year], vec![inp, pat]));
     }
     for f in crate::cron::SPELLINGS { g.push(true, Input::with_strs("fromstr", vec![3], vec![f.to_string()])); }
+    // str::parse of the integer types: every string up to length 3 over + - 0 1 9 5 space e-acute, and digit strings around each type's limits
+    {
+        let small = small_strings(&"+-0195 \u{e9}".chars().collect::<Vec<_>>(), 3);
+        let limits = ["255", "256", "0255", "+255", "-0", "-1", "00", "4294967295", "4294967296", "04294967295", "18446744073709551615", "18446744073709551616",
+                      "2147483647", "2147483648", "-2147483648", "-2147483649", "+2147483647", "99999999999999999999999999", "-99999999999999999999999999",
+                      "+", "-", "", "+-1", "--1", "1_0", "1e3", "0x10", " 1", "1 ", "\u{661}"];
+        for t in 0..4i128 {
+            for st in &small { g.push(true, Input::with_strs("std_parse", vec![t], vec![st.clone()])); }
+            for st in limits { g.push(true, Input::with_strs("std_parse", vec![t], vec![st.to_string()])); }
+        }
+    }
     for p in ["'", "''", "'''", "yyyy'", "'abc", "y'", "\u{0}", "\u{0}\u{0}", "'\u{0}", "''''", "'a''", "y''y", "\u{e9}'\u{e9}", ""] {
         for kind in 0..3i128 {
             let mut ints = vec![kind]; ints.extend(value_pool(g, kind)); ints.push(0);
